@@ -20,7 +20,7 @@ from .c12 import BLANK as BLANK_HASH, _LAST as _C12_LAST, _conflicts, resolve_ar
 
 ID = "C13"
 LEVEL = "exploration"
-BUDGET = {"quick": 8000, "thorough": 300000}
+BUDGET = {"quick": 8000, "thorough": 900000}
 RULE = (
     "case = (C12-style history building a non-empty BinaryTrie, so the db also holds "
     "stale nodes; a second history for a sibling trie; keys/prefixes: stored, absent "
